@@ -86,6 +86,95 @@ func randomText(r *rand.Rand, nStmts int, q int) []Stmt {
 	return out
 }
 
+// sizedText builds the statements of a text profile: per group its own block
+// of v (and vt / vn) declarations, then "g", now and then "usemtl", then the
+// faces. Positions are distinct lattice points, so every face is
+// recognisable. A group with NF = NV-2 is a strip (face i uses corners i,
+// i+1, i+2: all NV corners occur); otherwise the faces run cyclically over
+// the group's corners. Each corner always pairs the same vt / vn with its v,
+// so the number of distinct corner tokens of the group is exactly NV.
+func sizedText(p TextProfile, q int) []Stmt {
+	r := rand.New(rand.NewSource(p.Seed))
+	out := []Stmt{stmt("x")}
+	nv, nvt, nvn := 0, 0, 0
+	unit := q / 4
+	groups := []string{"hull", "deck 1", "mast", "g5"}
+	mtls := []string{"red", "blue", "wood"}
+	off := r.Intn(7)
+	for gi, g := range p.Groups {
+		vBase, vtBase, vnBase := nv, nvt, nvn
+		nLocalVt, nLocalVn := 0, 0
+		if g.Syn&1 != 0 {
+			nLocalVt = g.NV + 1 // pools of different sizes: a pool mix-up changes a value or leaves the range
+		}
+		if g.Syn&2 != 0 {
+			nLocalVn = g.NV - 1 // with the profiles of size s-1, s, s+1 each pool is once exactly s long
+		}
+		for i := 0; i < g.NV; i++ {
+			k := nv + off
+			st := stmt("v")
+			st.X = []int{(k%61 - 30) * unit, ((k/61)%61 - 30) * unit, (k/3721 - 8) * unit}
+			out = append(out, st)
+			nv++
+			if i < nLocalVt { // declarations interleaved
+				vt := stmt("vt")
+				vt.X = []int{(nvt % 17) * unit, (nvt/17%64 - 32) * unit}
+				out = append(out, vt)
+				nvt++
+			}
+			if i < nLocalVn {
+				vn := stmt("vn")
+				vn.X = []int{(nvn%9 - 4) * unit, (nvn/9%9 - 4) * unit, (nvn/81%64 - 32) * unit}
+				out = append(out, vn)
+				nvn++
+			}
+		}
+		for nvt < vtBase+nLocalVt {
+			vt := stmt("vt")
+			vt.X = []int{(nvt % 17) * unit, (nvt/17%64 - 32) * unit}
+			out = append(out, vt)
+			nvt++
+		}
+		for nvn < vnBase+nLocalVn {
+			vn := stmt("vn")
+			vn.X = []int{(nvn%9 - 4) * unit, (nvn/9%9 - 4) * unit, (nvn/81%64 - 32) * unit}
+			out = append(out, vn)
+			nvn++
+		}
+		gs := stmt("g")
+		gs.S = groups[(gi+off)%len(groups)]
+		if g.NameLen > 0 {
+			gs.S = longName(g.NameLen, gi)
+		}
+		out = append(out, gs)
+		corner := func(local int) []int {
+			c := []int{vBase + local + 1, 0, 0}
+			if g.Syn&1 != 0 {
+				c[1] = vtBase + (local+1)%nLocalVt + 1
+			}
+			if g.Syn&2 != 0 {
+				c[2] = vnBase + local%nLocalVn + 1
+			}
+			return c
+		}
+		for f := 0; f < g.NF; f++ {
+			if f == 0 && (gi+off)%2 == 0 || f > 0 && f == g.NF/2 && off%3 == 0 {
+				u := stmt("usemtl")
+				u.S = mtls[(gi+f+off)%len(mtls)]
+				out = append(out, u)
+			}
+			st := stmt("f")
+			a := f % g.NV
+			if g.NF != g.NV-2 {
+				a = (f * 7) % g.NV
+			}
+			st.C = [][]int{corner(a), corner((a + 1) % g.NV), corner((a + 2) % g.NV)}
+			out = append(out, st)
+		}
+	}
+	return out
+}
+
 // GenObjRandom writes nWr seeded "wr" cases and nLd random-text "ld" cases.
 func GenObjRandom(out string, seed int64, nWr, nLd, maxTris, maxStmts int) error {
 	fo, err := os.Create(out)
@@ -99,7 +188,7 @@ func GenObjRandom(out string, seed int64, nWr, nLd, maxTris, maxStmts int) error
 	r := rand.New(rand.NewSource(seed))
 	for i := 0; i < nWr; i++ {
 		c := ObjCase{K: "wr", Tag: "random", Enc: "f32", Q: 1,
-			Seeded: &ObjSeeded{Seed: seed*100003 + int64(i), NMesh: 1 + r.Intn(5), MaxTris: 1 + r.Intn(maxTris)}}
+			Seeded: &ObjSeeded{Seed: seed*100003 + int64(i), NMesh: 1 + r.Intn(5), MaxTris: 1 + r.Intn(maxTris), Edge: i % 3 / 2}}
 		if err := enc.Encode(c); err != nil {
 			return err
 		}
